@@ -375,6 +375,7 @@ func genNames(c *ctx) {
 
 	ncases := c.pick(1400, 14000)
 	nseries := c.pick(6, 40)
+	nchain := c.pick(10, 60)
 	for ci := 0; ci < ncases; ci++ {
 		root := work
 		dest := filepath.Join(root, c09DestRel)
@@ -384,10 +385,28 @@ func genNames(c *ctx) {
 		os.WriteFile(filepath.Join(root, c09Fill, "r/sb/evil"), []byte("orig-evil"), 0644)
 		os.WriteFile(filepath.Join(root, c09Fill, "r/evil"), []byte("orig-evil-2"), 0644)
 		kind := 2
+		// chain cases: ONE name (with fmt verbs in it) arrives again and again, and/or the destination
+		// already holds name, name.0 .. name.(L-1): the counter of the fresh name goes far beyond 47
+		// and into two and three digits
+		chainName, chainLen := "", 0
 		if ci < nseries {
 			kind = 1
+		} else if ci < nseries+nchain {
+			kind = 0
+			chainName = c09ChainNames[(ci-nseries)%len(c09ChainNames)]
+			chainLen = []int{0, 0, 0, 12, 47, 48, 60, 101}[c.rng.Intn(8)]
+			if (ci-nseries) < 2 {
+				chainLen = 0
+			}
+			c.count("pre:chain")
 		} else if c.rng.Intn(8) == 0 {
 			kind = 0
+		}
+		if chainLen > 0 {
+			os.WriteFile(filepath.Join(dest, chainName), []byte("chain-base"), 0644)
+			for k := 0; k < chainLen; k++ {
+				os.WriteFile(filepath.Join(dest, chainName+"."+strconv.Itoa(k)), nil, 0644)
+			}
 		}
 		for _, p := range c.c09PreState(kind) {
 			full := filepath.Join(dest, p.rel)
@@ -415,23 +434,37 @@ func genNames(c *ctx) {
 			proto = 3 + c.rng.Intn(2)
 		}
 		hostileCase := c.rng.Intn(3) == 0
+		if chainName != "" {
+			overwrite, hostileCase = false, false
+			if v3 {
+				v3, proto = false, 2
+			}
+		}
 		v := trzsz.VerifNamesNew(overwrite, directory, proto)
 
 		nm := 1 + c.rng.Intn(6)
+		if chainName != "" && chainLen == 0 {
+			nm = 52 + c.rng.Intn(14)
+		}
 		var margs, results []string
 		var reported []string
 		allOK := true
 		nontrivial := false
 		foreign := false
 		idName := map[string]string{}
+		idsSeen := map[string]bool{}
 		cur := pre
 		for mi := 0; mi < nm; mi++ {
 			payload := []byte(fmt.Sprintf("P%d-%d", ci, mi))
 			hostile := hostileCase && c.rng.Intn(2) == 0
-			entry := v.HasArchive() && c.rng.Intn(3) > 0
+			entry := v.HasArchive() && c.rng.Intn(3) > 0 && chainName == ""
 			var raw string
 			jsonMode := entry || directory || v3
-			if jsonMode {
+			if chainName != "" && jsonMode {
+				raw = c07rJSON(mi, []string{chainName}, false, false, len(payload))
+			} else if chainName != "" {
+				raw = chainName
+			} else if jsonMode {
 				raw, _ = c.c09JSON(hostile, entry, payload)
 			} else if hostile {
 				raw = c.c09HostileName()
@@ -449,6 +482,9 @@ func genNames(c *ctx) {
 			var err error
 			var local string
 			key := fmt.Sprintf("ow=%v,dir=%v,v3=%v,entry=%v,name=%s", overwrite, directory, v3, entry, hx([]byte(raw)))
+			if chainName != "" {
+				key = fmt.Sprintf("ow=%v,dir=%v,chain=%s,existing=%d,arrival=%d", overwrite, directory, hx([]byte(chainName)), chainLen, mi+1)
+			}
 			switch {
 			case entry:
 				err = v.ArchiveEntry(raw, payload)
@@ -502,6 +538,30 @@ func genNames(c *ctx) {
 			results = append(results, res)
 
 			// ---- direct oracles, per message
+			// the fresh name is the requested name or name.N, N the first decimal counter whose
+			// candidate is not there (C07) - whatever bytes the name consists of
+			if !overwrite && err == nil && !entry {
+				want := raw
+				if jsonMode {
+					want = ""
+					if _, rel, _, _, _, ok := trzsz.VerifDecodeSourceFile(raw); ok && len(rel) > 0 {
+						// only for a path id this receiver has not seen in any earlier message (a refused
+						// record or an archive entry may have reserved a name for it already)
+						if id := dec[:strings.IndexByte(dec, ';')]; !idsSeen[id] {
+							want = rel[0]
+						}
+					}
+				}
+				if want != "" && !strings.ContainsRune(want, 0) && want != "." && want != ".." && !strings.Contains(want, "/") {
+					if what := c09FreshShape(cur, want, local); what != "" {
+						c09Violate(c, "fresh-shape:"+key, "the local name is not the first free one of name, name.0, name.1, ...",
+							fmt.Sprintf("%s: requested %q, stored as %q: %s", key, want, local, what))
+					}
+				}
+			}
+			if jsonMode && dec != "x" {
+				idsSeen[dec[:strings.IndexByte(dec, ';')]] = true
+			}
 			now := c09Snapshot(root)
 			cr, to, rm := c09Diff(cur, now)
 			for _, rel := range append(append(append([]string{}, cr...), to...), rm...) {
@@ -786,4 +846,42 @@ func c09Violate(c *ctx, key, what, detail string) {
 	}
 	c09ViolCount[kind]++
 	c.violate(key, what, detail)
+}
+
+// names with fmt verbs in them (all single path elements checkFileName accepts), plus two ordinary ones
+var c09ChainNames = []string{"..%[1]c..%[1]cpc09", "a", "%d", "x%cy", "100%%", "%[1]c%[1]c", "q%sq", "%v.txt", "%5d", "..%c", "f.txt", "%[1]d.%[1]d", "%x%X%o", "..%[1]c..%[1]c..%[1]cz"}
+
+// c09FreshShape: "" if local is want or want.N (N decimal, 0..999, no leading zero) and every
+// earlier candidate is blocked (present in the snapshot of the destination, or longer than NAME_MAX)
+func c09FreshShape(cur c09Snap, want, local string) string {
+	blocked := func(cand string) bool {
+		if len(cand) > 255 {
+			return true
+		}
+		_, ok := cur[c09DestRel+"/"+cand]
+		return ok
+	}
+	if local == want {
+		if blocked(want) {
+			return "the requested name existed and was used nevertheless"
+		}
+		return ""
+	}
+	if !strings.HasPrefix(local, want+".") {
+		return "not of the form name.N"
+	}
+	suffix := local[len(want)+1:]
+	k, err := strconv.Atoi(suffix)
+	if err != nil || k < 0 || k > 999 || strconv.Itoa(k) != suffix {
+		return fmt.Sprintf("the counter %q is not a decimal number 0..999", suffix)
+	}
+	if !blocked(want) {
+		return "the requested name was free"
+	}
+	for j := 0; j < k; j++ {
+		if !blocked(want + "." + strconv.Itoa(j)) {
+			return fmt.Sprintf("%s.%d was free", want, j)
+		}
+	}
+	return ""
 }
